@@ -106,6 +106,22 @@ func runLinz(o Opts) *Result {
 		for g := 0; g < nG; g++ {
 			for i := 0; i < nOps; i++ {
 				p := plan{k: 1 + rng.Intn(5)}
+				if o.Profile == "c18del" {
+					// one key, many concurrent deletes, no batch operations: every successful delete must remove a stored entry
+					p.k = 1
+					switch x := rng.Intn(10); {
+					case x < 3:
+						val++
+						p.kind, p.v = "w", val
+						written[p.k][p.v] = true
+					case x < 9:
+						p.kind = "d"
+					default:
+						p.kind = "r"
+					}
+					plans[g] = append(plans[g], p)
+					continue
+				}
 				if stress {
 					// ancient entries, cleanup cycles and fresh rewrites of the same key, then reads
 					p.k = 1
@@ -308,6 +324,24 @@ func runLinz(o Opts) *Result {
 		}
 		if !batch && stats.Get(cache.MetricDelete, "lz") != okDeletes {
 			fail("C18", "delete-metric", fmt.Sprintf("%d Delete calls reported success but cache_delete=%d", okDeletes, stats.Get(cache.MetricDelete, "lz")), "")
+		}
+		// … and no key can have more entries counted as deleted than were ever stored for it
+		if !batch {
+			wr, dl := map[int]int{}, map[int]int{}
+			for _, e := range events {
+				if strings.HasPrefix(e.op, "w:") {
+					wr[e.keys[0]]++
+				}
+				if strings.HasPrefix(e.op, "d:") && e.res == "ok" {
+					dl[e.keys[0]]++
+				}
+			}
+			for k, n := range dl {
+				// colliding keys share a slot: a write of the twin also ends this key's entry, never adds one
+				if n > wr[k] {
+					fail("C18", "delete-overcount", fmt.Sprintf("key k%d: %d entries were ever stored but %d deletes succeeded and were counted (cache_delete=%d)", k, wr[k], n, stats.Get(cache.MetricDelete, "lz")), "")
+				}
+			}
 		}
 		nWrites := 2 + nFill
 		for _, e := range events {
